@@ -24,11 +24,22 @@ def explore(ctx):
     dist = {}
     for k in range(n):
         forms, idx, kind = gen.file_program(ctx.rng, ctx.rng.randint(3, 9))
+        libfile = []
+        if ctx.rng.random() < 0.3:
+            # the program uses a library of its own that lies next to it (wherever the program is started from and
+            # however it is named)
+            forms[0] = "(import (scheme base) (scheme write) (helper17))"
+            forms.insert(1, "(display (helper17-value))")
+            if idx is not None:
+                idx += 1
+            libtext = "(define-library (helper17) (export helper17-value) (import (scheme base)) (begin (define (helper17-value) '(from helper17))))"
+            # next to the program for the binary; in the harness's own working directory for the in-process evaluation
+            libfile = ["FILE %s %s %s" % (h("prog"), h("helper17"), h(libtext)), "FILE %s %s %s" % (h("cwd"), h("helper17"), h(libtext))]
         eol = ctx.rng.choice(["\n", "\n", "\r\n"])
         final = ctx.rng.random() < 0.6
         text = gen.render_file(ctx.rng, forms, eol, final)
         lf = text.replace("\r\n", "\n")
-        lines = ["FILE %s %s %s" % (h("prog"), h("main.scm"), h(text)), "RUNBIN %s %s" % (h("prog"), h("main.scm")),
+        lines = libfile + ["FILE %s %s %s" % (h("prog"), h("main.scm"), h(text)), "RUNBIN %s %s" % (h("prog"), h("main.scm")),
                  "NEW 0 plain", "EVAL 0 " + h(lf),
                  # the same program with the other line ends and with / without the final newline
                  "FILE %s %s %s" % (h("prog"), h("alt.scm"), h(lf.rstrip("\n") if final else lf + "\n")),
@@ -37,8 +48,11 @@ def explore(ctx):
                  "RUNBIN %s %s" % (h("prog"), h("crlf.scm")),
                  # the same file named by a relative path with a directory part
                  "RUNBIN %s %s rel" % (h("prog"), h("main.scm"))]
-        cases.append({"lines": lines, "forms": forms, "fault": kind, "fault_index": idx, "eol": repr(eol), "final_newline": final})
+        cases.append({"lines": lines, "forms": forms, "fault": kind, "fault_index": idx, "eol": repr(eol), "final_newline": final,
+                      "off": len(libfile)})
         dist[kind or "no fault"] = dist.get(kind or "no fault", 0) + 1
+        if libfile:
+            dist["with a library next to the program"] = dist.get("with a library next to the program", 0) + 1
     # files larger than the usual buffer sizes with a multi-byte character (or a CR LF pair) lying across a block boundary
     for boundary in ([4096, 8192, 16384] if ctx.quick else [512, 1024, 4096, 8192, 16384, 32768, 65536, 131072]):
         for ch in ("\u00e9", "\u4e2d", "\U0001f600", "\r\n"):
@@ -79,6 +93,8 @@ def explore(ctx):
     results, ndis = common.run_cases(ctx, cases, timeout=1200)
     bad = 0
     for c, (ml, il, d) in zip(cases, results):
+        il = il[c.get("off", 0):]       # the lines that write the program's own library come first
+        ml = ml[c.get("off", 0):]
         run = RUN.match(il[1] if len(il) > 1 else il[0])
         if not run:
             continue
@@ -111,7 +127,7 @@ def explore(ctx):
         "rule": "random displaying programs (definitions, display of computed values, lists, strings, newlines, derived forms) "
                 "with an optional injected fault (8 run-time kinds or a syntactically invalid form) at a random position, "
                 "comments and blank lines, string literals that span lines with blanks and tabs before the line break, LF or CR LF "
-                "line ends, with or without final newline, named by an absolute and by a relative path; written to a scratch "
+                "line ends, with or without final newline, named by an absolute and by a relative path, three in ten importing a library file that lies next to the program; written to a scratch "
                 "directory and run through the built binary from ANOTHER working directory: stdout bytes, exit status and "
                 "the diagnostic's location vs the model; stdout vs in-process evaluation of the same text; the same program "
                 "with the other line-end convention and final-newline choice must give the same result; plus files of 4-130 KiB in which a 2-, 3- or 4-byte character "
